@@ -146,6 +146,21 @@ def xml_history_case(idx, payload):
                 '<param><type>%s</type><declname>s</declname></param><briefdescription><para>Overload number %d.</para>'
                 '</briefdescription><detaileddescription></detaileddescription></memberdef>' % (i, types[i], types[i], i)
                 for i in range(n_doc)) + '</sectiondef></compounddef></doxygen>')
+        # ONE wrapper object wrapping the file, another file, and the file again: the second output for the file is the first
+        # (the overload counter of the XML parser is a per-FILE accumulator, like the list of serialising classes)
+        w0 = PybindWrapper(module_name="m", top_module_namespaces=[''], use_boost_serialization=False, ignore_classes=[],
+                           module_template=streams.TPL_MIN, xml_source=d)
+        try:
+            o1 = w0.wrap_file(text, module_name="m")
+            if rng.random() < 0.5:
+                w0.wrap_file("class B { B(); void scale(int s); };", module_name="m")
+            o2 = w0.wrap_file(text, module_name="m")
+        except Exception as e:  # noqa
+            o1, o2 = "", "<<%s>>" % classify_exc(e)
+        if o1 != o2:
+            res["bad"] = dict(what="with Doxygen XML, the output for an input depends on the files wrapped earlier by the same wrapper object",
+                              input=text, documented_overloads=n_doc, **streams.first_diff(o1, o2))
+            return res
         outs = []
         for _ in range(3):
             w = PybindWrapper(module_name="m", top_module_namespaces=[''], use_boost_serialization=False, ignore_classes=[],
@@ -407,6 +422,22 @@ def replay_finding(e):
             open(os.path.join(d, "in.i"), "w", encoding="utf-8").write(w["input"])
             r = run_script([os.path.join(REPO, "scripts", "matlab_wrap.py"), "--src", "in.i", "--module_name", "m", "--out", "tb"], d, C_LOCALE)
             return r.returncode != 0
+        finally:
+            shutil.rmtree(d, ignore_errors=True)
+    if w.get("kind") == "xml_reuse":
+        from gtwrap.pybind_wrapper import PybindWrapper
+        d = tempfile.mkdtemp(prefix="verif_c14k_")
+        try:
+            open(os.path.join(d, "index.xml"), "w").write('<doxygenindex><compound refid="classA" kind="class"><name>A</name></compound></doxygenindex>')
+            open(os.path.join(d, "classA.xml"), "w").write(
+                '<doxygen><compounddef id="classA" kind="class"><compoundname>A</compoundname><sectiondef kind="public-func">' + "".join(
+                    '<memberdef kind="function" id="m%d"><type>void</type><name>scale</name><argsstring>(%s s)</argsstring>'
+                    '<param><type>%s</type><declname>s</declname></param><briefdescription><para>Overload number %d.</para>'
+                    '</briefdescription><detaileddescription></detaileddescription></memberdef>' % (i, t, t, i)
+                    for i, t in enumerate(w["overload_types"])) + '</sectiondef></compounddef></doxygen>')
+            wr = PybindWrapper(module_name="m", top_module_namespaces=[''], use_boost_serialization=False, ignore_classes=[],
+                               module_template=streams.TPL_MIN, xml_source=d)
+            return wr.wrap_file(w["input"], module_name="m") != wr.wrap_file(w["input"], module_name="m")
         finally:
             shutil.rmtree(d, ignore_errors=True)
     return False
